@@ -11,6 +11,7 @@
 -/
 import Aqv.Lemmas.ChainHist
 import Aqv.Lemmas.ChainHdr
+import Aqv.Lemmas.ChainMixed
 namespace Aqv.Props.C02
 open Aqv.Chain
 
@@ -219,5 +220,122 @@ example : HImports U0 [.insert [a1, a2, a3] [], .insert [b1, b2] [], .insert [t2
   intro op hop
   simp at hop
   rcases hop with rfl | rfl | rfl <;> decide
+
+/-! ### mixed histories: ONE chain fed through `InsertChain` and `InsertHeaderChain`
+
+The two import paths share the `HeaderChain` state (header store, td records, the head header from which `WriteHeader`
+takes the local total difficulty).  Model: `Aqv.Model.ChainMixed` (td level; where block imports leave the head header is
+an input like the coin).  The theorems hold for every interleaving of block and header batches, every coin and every such
+choice. -/
+
+/-- a mixed history: every batch consists of blocks of the universe -/
+def Mixed (U : Map Blk) (ops : List MOp) : Prop := ∀ op ∈ ops, MOpOk U op
+
+instance (U : Map Blk) (ops : List MOp) : Decidable (Mixed U ops) :=
+  inferInstanceAs (Decidable (∀ op ∈ ops, MOpOk U op))
+
+theorem mrun_append (s : MSt) (a b : List MOp) : mrun s (a ++ b) = mrun (mrun s a) b := by
+  induction a generalizing s with
+  | nil => rfl
+  | cons op a ih => exact ih _
+
+theorem mixed_reachable (W : World U) (g : Blk) (hgU : U g.id = some g) (ops : List MOp) (hops : Mixed U ops) :
+    MInv U (mrun (minit g) ops) := (mstep_run W ops (minv_init g hgU) hops).inv
+
+/-- every record is the parent's record plus the difficulty, whichever path wrote it -/
+theorem mixed_td_recurrence (W : World U) (g : Blk) (hgU : U g.id = some g) (ops : List MOp) (hops : Mixed U ops) :
+    let s := mrun (minit g) ops
+    ∀ k x p tx tp, s.hdr k = some x → parentOf s.hdr x = some p → s.td k = some tx → s.td p.id = some tp →
+      tx = tp + x.diff := by
+  intro s k x p tx tp hx hpar htx htp
+  have h := mixed_reachable W g hgU ops hops
+  have hxU := h.sub _ _ hx
+  have hxid := W.ids _ _ hxU
+  obtain ⟨x', lx, hx', hpx, htx'⟩ := h.tdI _ _ htx
+  obtain ⟨p', lp, hp', hpp, htp'⟩ := h.tdI _ _ htp
+  rw [hxU] at hx'; cases hx'
+  have hpU := h.sub _ _ (parentOf_some hpar).1
+  rw [W.ids _ _ hpU] at hp'
+  rw [hpU] at hp'; cases hp'
+  have := (Path.cons (parentOf_mono h.sub hpar) hpp).det hpx rfl
+  rw [← this.1] at htx'
+  rw [htx', htp', diffSum_cons]
+  omega
+
+/-- the head block is a fully validated block at least as heavy as every fully validated block, whatever headers were
+    imported in between -/
+theorem mixed_head_is_max (W : World U) (g : Blk) (hgU : U g.id = some g) (ops : List MOp) (hops : Mixed U ops) :
+    let s := mrun (minit g) ops
+    s.blk s.head = true ∧ ∀ k t, s.blk k = true → s.td k = some t → ∃ th, s.td s.head = some th ∧ t ≤ th := by
+  intro s
+  have h := mixed_reachable W g hgU ops hops
+  exact ⟨h.headBlk, h.headMax⟩
+
+/-- the head block's total difficulty never decreases along a mixed history -/
+theorem mixed_head_td_monotone (W : World U) (g : Blk) (hgU : U g.id = some g) (ops ops' : List MOp)
+    (hops : Mixed U (ops ++ ops')) :
+    let s := mrun (minit g) ops
+    let s' := mrun (minit g) (ops ++ ops')
+    ∃ th th', s.td s.head = some th ∧ s'.td s'.head = some th' ∧ th ≤ th' := by
+  intro s s'
+  have h1 : Mixed U ops := fun o ho => hops o (List.mem_append_left _ ho)
+  have h2 : Mixed U ops' := fun o ho => hops o (List.mem_append_right _ ho)
+  have hI := mixed_reachable W g hgU ops h1
+  obtain ⟨x, hx⟩ := Option.isSome_iff_exists.mp (hI.blkHdr _ hI.headBlk)
+  obtain ⟨th, hth⟩ := Option.isSome_iff_exists.mp (hI.hdrTd _ _ hx)
+  obtain ⟨th', hth', hle⟩ := (mstep_run W ops' hI h2).headMono th hth
+  refine ⟨th, th', hth, ?_, hle⟩
+  have e : s' = mrun (mrun (minit g) ops) ops' := mrun_append _ _ _
+  rw [e]; exact hth'
+
+/-- `InsertHeaderChain` at any point of a mixed history: the head block is untouched, the head header's total difficulty
+    does not decrease, and afterwards it is at least as heavy as every header the call has newly stored (the local total
+    difficulty is that of the CURRENT head header, wherever block imports have put it) -/
+theorem mixed_header_import_monotone (W : World U) {s : MSt} (h : MInv U s) (chain : List Blk)
+    (hU : ∀ x ∈ chain, U x.id = some x) (coins : List Bool) :
+    let s' := (mImportHeaders s chain coins).1.st
+    s'.head = s.head ∧
+    (∀ th, s.td s.hhead = some th → ∃ th', s'.td s'.hhead = some th' ∧ th ≤ th') ∧
+    (∀ k, s.hdr k = none → (s'.hdr k).isSome = true → ∃ t th, s'.td k = some t ∧ s'.td s'.hhead = some th ∧ t ≤ th) := by
+  intro s'
+  have := mhstep_importHeaders W h chain hU coins
+  exact ⟨this.headSame, this.hheadMono, this.newMax⟩
+
+/-- non-vacuity: full blocks of the long branch a1–a2–a3 (td 130), then bare headers of the lighter fork b1 (td 120): the
+    head header stays on a3; headers of the heavier fork b1–b2 (td 140) move it to b2 while the head block stays a3 -/
+example :
+    let follow : List (Bool × Option Nat) := [(false, some 0), (false, some 0), (false, some 0)]  -- head header follows
+    let s1 := mrun (minit g) [.blocks [a1, a2, a3] follow, .headers [b1] [true]]
+    let s2 := mrun (minit g) [.blocks [a1, a2, a3] follow, .headers [b1, b2] []]
+    s1.head = 3 ∧ s1.hhead = 3 ∧ s2.head = 3 ∧ s2.hhead = 5 ∧ s2.td 5 = some 140 := by decide
+
+example : Mixed U0 [.blocks [a1, a2, a3] [], .headers [b1, b2] []] := by decide
+
+/-! ### concurrency: the fork choice has to be made under the lock
+
+The models treat `WriteBlockWithState` as ONE atomic step: the local total difficulty it compares with is that of the head
+at the moment the block is written (`bc.mu` is held from before `CurrentBlock()` is read until `insert` returns).  This is
+an ASSUMPTION of every theorem above about concurrent callers (`InsertChain` is serialised by `chainmu`, the miner calls
+`WriteBlockWithState` directly); the harness ties it to the code with a controlled two-writer schedule.  The witness below
+shows what the assumption buys: a writer that sampled the head's total difficulty BEFORE another writer made the heavier
+sibling X head, and applies its decision afterwards, reorganises to its lighter block M. -/
+
+/-- a write whose fork-choice decision was sampled in state `old` and is applied in state `s` -/
+def staleWrite (old s : MSt) (b : Blk) : MSt :=
+  match old.td old.head, s.td b.parent with
+  | some sampled, some ptd =>
+    let s1 : MSt := { s with td := upd s.td b.id (some (ptd + b.diff)), hdr := upd s.hdr b.id (some b),
+                             blk := updB s.blk b.id true }
+    if ptd + b.diff > sampled then { s1 with head := b.id, hhead := b.id } else s1
+  | _, _ => s
+
+theorem fork_choice_not_atomic_witness :
+    let x : Blk := ⟨7, 4, 2, 30, []⟩        -- heavier sibling X of b2 on top of b1 (td 150)
+    let s0 := mrun (minit g) [.blocks [b1] []]
+    let sX := mrun s0 [.blocks [x] []]
+    -- atomic (the model, the code under bc.mu): the lighter b2 (td 140) stays a side block
+    (mrun sX [.blocks [b2] []]).head = 7 ∧
+    -- decision sampled before X became head, applied after: the head moves to the lighter block, its td decreases
+    (staleWrite s0 sX b2).head = 5 ∧ (staleWrite s0 sX b2).td 5 = some 140 ∧ sX.td 7 = some 150 := by decide
 
 end Aqv.Props.C02
